@@ -25,6 +25,11 @@ def collect(prop, results, rd, inv, viol, st):
             else:
                 raise v.ToolError("fxv conc failed: " + x["stderr"][-500:])
         else:
+            # a program thread that panicked inside the code under test ends its schedule as a stall (the controller
+            # discards the history); the panic itself is the result
+            if "panicked at" in (x.get("stderr") or "") and v.panic_in_code_under_test(x["stderr"]):
+                p = v.save_replay(prop.lower(), os.path.basename(x["trace"]) + ".panic.txt", x["stderr"])
+                viol.append({"what": "panic in a call of the code under test: " + v.clip_stderr(x["stderr"], 400)[:400], "replay": p, "key": "panic"})
             ok.append(x)
     for x, r in v.parallel_map(val, ok, jobs=10):
         st["traces"] += 1
@@ -131,6 +136,22 @@ def run(tier, seed):
         fam += ce.triple_family(rng, 150)
     fam += ce.aba_family()
     fam += ce.clock_family()
+    # two calls racing on a key that does not exist yet, with the points BETWEEN the two index publications as
+    # decision points: whoever creates the key has published it in the hash index and stands in front of the
+    # ordered-index insert while the other call runs (creation must be one step for every creating call)
+    creators = ("incr", "incr2", "iia", "ins_auto", "ins_new", "insb_auto", "ins_ttl", "patch", "cas", "ttl", "del_auto", "get")
+    tpoints = ["tree_insert", "tree_publish", "tree_remove", "ins_create", "ins_read", "inc_create", "iia_guard", "inc_guard",
+               "upd_guard", "rep_guard", "ttl_guard", "del_guard"]
+    cfam = []
+    for n, p in ce.pair_family():
+        parts = n.split("|")
+        if parts[0] == "absent" and len(parts) == 3 and (parts[1] in creators[:7] or parts[2] in creators[:7]) \
+                and parts[1] in creators and parts[2] in creators:
+            cfam.append(("tree|" + n, dict(p, points=tpoints)))
+    if tier == "quick":
+        rng.shuffle(cfam)
+        cfam = [x for x in cfam if "|incr" in x[0] or "|iia" in x[0]][:8] + cfam[:4]
+    fam += cfam
     res = ce.run_dfs(fxv, rd, fam, "pairs", maxsched=300 if tier == "quick" else 1500,
                      preempt=2 if tier == "quick" else 3)
     ok = collect(PROP, res, rd, INV, viol, st)
